@@ -9,6 +9,13 @@ import traceback
 
 def _child(conn, fn, args):
     try:
+        import resource
+
+        lim = int(os.environ.get("PYVC_MEM_GB", "6")) << 30
+        resource.setrlimit(resource.RLIMIT_AS, (lim, lim))
+    except Exception:
+        pass
+    try:
         r = fn(*args)
     except BaseException as e:  # noqa
         r = dict(error=f"{type(e).__name__}: {e}", trace=traceback.format_exc()[-3000:])
